@@ -126,6 +126,153 @@ def abstract_nonlinear(terms):
   return [rec(t) for t in terms]
 
 
+def _skolemize_goal(goal, ctr):
+  """push the negation inward conceptually: universally quantified variables of the GOAL
+  become fresh constants (to refute `not goal` one instance suffices)"""
+  if z3.is_quantifier(goal) and goal.is_forall():
+    n = goal.num_vars()
+    consts = [z3.Const(f"sk!{ctr[0] + i}!{goal.var_name(i)}", goal.var_sort(i)) for i in range(n)]
+    ctr[0] += n
+    body = z3.substitute_vars(goal.body(), *reversed(consts))
+    return _skolemize_goal(body, ctr)
+  if z3.is_and(goal):
+    return z3.And(*[_skolemize_goal(c, ctr) for c in goal.children()])
+  if z3.is_implies(goal):
+    a, b = goal.children()
+    return z3.Implies(a, _skolemize_goal(b, ctr))
+  if z3.is_or(goal):
+    # Or(not A, forall..) pattern produced by simplification
+    ch = goal.children()
+    if sum(1 for c in ch if z3.is_quantifier(c)) <= 1:
+      return z3.Or(*[_skolemize_goal(c, ctr) if (z3.is_quantifier(c) and c.is_forall()) else c for c in ch])
+  return goal
+
+
+def _index_terms(t, out, seen, depth_limit=4):
+  """ground Int-sorted arguments of uninterpreted functions (candidate instantiation terms)"""
+  stack = [(t, 0)]
+  while stack:
+    x, bound = stack.pop()
+    k = (x.get_id(), bound)
+    if k in seen:
+      continue
+    seen.add(k)
+    if z3.is_quantifier(x):
+      stack.append((x.body(), bound + x.num_vars()))
+      continue
+    if not z3.is_app(x):
+      continue
+    if x.decl().kind() == z3.Z3_OP_UNINTERPRETED and x.num_args() > 0:
+      for a in x.children():
+        if a.sort() == z3.IntSort() and _is_ground(a):
+          out[a.get_id()] = a
+          # an index that is a conditional: both alternatives are index terms too
+          alts = [a]
+          while alts:
+            y = alts.pop()
+            if z3.is_app(y) and y.decl().kind() == z3.Z3_OP_ITE:
+              for b in y.children()[1:]:
+                out[b.get_id()] = b
+                alts.append(b)
+    for c in x.children():
+      stack.append((c, bound))
+
+
+def _is_ground(t):
+  stack = [t]
+  seen = set()
+  while stack:
+    x = stack.pop()
+    if x.get_id() in seen:
+      continue
+    seen.add(x.get_id())
+    if z3.is_var(x) or z3.is_quantifier(x):
+      return False
+    if z3.is_app(x):
+      stack.extend(x.children())
+  return True
+
+
+def instantiate_and_check(assumptions, goal, timeout_ms=10000, rounds=2, max_inst=4000, seed=0):
+  """Refute (assumptions and not goal) with the universally quantified hypotheses replaced by
+  their instances at the ground index terms of the problem (goal-directed instantiation).
+  Instances are consequences of the hypotheses, so `unsat` here is a proof; anything else
+  decides nothing."""
+  ctr = [0]
+  g = _skolemize_goal(goal, ctr)
+  ground, quants = [], []
+  for a in assumptions:
+    for c in _flatten(a):
+      if z3.is_quantifier(c) and c.is_forall():
+        quants.append(c)
+      elif z3.is_implies(c) and z3.is_quantifier(c.children()[1]) and c.children()[1].is_forall():
+        quants.append(c)  # guard -> forall
+      else:
+        ground.append(c)
+  insts = []
+  cands = {}
+  seen = set()
+  for t in ground + [g]:
+    _index_terms(t, cands, seen)
+  done = set()
+  for _ in range(rounds):
+    terms = list(cands.values())
+    new = []
+    for q in quants:
+      guard = None
+      qq = q
+      if z3.is_implies(q):
+        guard, qq = q.children()
+      n = qq.num_vars()
+      if n > 2:
+        continue
+      import itertools
+
+      for tup in itertools.product(terms, repeat=n):
+        key = (q.get_id(),) + tuple(t.get_id() for t in tup)
+        if key in done:
+          continue
+        done.add(key)
+        inst = z3.substitute_vars(qq.body(), *reversed(tup))
+        if guard is not None:
+          inst = z3.Implies(guard, inst)
+        new.append(inst)
+        if len(insts) + len(new) > max_inst:
+          break
+      if len(insts) + len(new) > max_inst:
+        break
+    insts.extend(new)
+    for t in new:
+      _index_terms(t, cands, seen)
+  s = z3.Solver()
+  s.set("timeout", int(timeout_ms))
+  s.set("random_seed", int(seed) % (2**31))
+  for a in ground + insts:
+    if not _has_quantifier(a):
+      s.add(a)
+  if _has_quantifier(g):
+    return {"status": "unknown", "reason": "goal keeps quantifiers after skolemisation"}
+  s.add(z3.Not(g))
+  t0 = time.time()
+  r = s.check()
+  return {"status": "unsat" if r == z3.unsat else "unknown", "backend": f"z3-5.1(api) ({len(insts)} goal-directed instances of quantified hypotheses)", "time_s": time.time() - t0}
+
+
+def _has_quantifier(t):
+  stack = [t]
+  seen = set()
+  while stack:
+    x = stack.pop()
+    if x.get_id() in seen:
+      continue
+    seen.add(x.get_id())
+    if z3.is_quantifier(x):
+      return True
+    if z3.is_app(x):
+      stack.extend(x.children())
+  return False
+
+
 _SIMP_CACHE = {}
 
 
